@@ -225,6 +225,10 @@ func init() {
 		}
 		return nil, false
 	})
+	reg("SetCarrier", func(e *Exec, fv *FuncV, args []Value, cc *ssa.CallCommon) (Value, bool) {
+		e.ext["carrier."+e.strArg(args[0])] = args[1].(*Term)
+		return nil, false
+	})
 	reg("ConcreteClock", func(e *Exec, fv *FuncV, args []Value, cc *ssa.CallCommon) (Value, bool) {
 		t := args[0].(*Term)
 		if !t.Const {
